@@ -65,6 +65,32 @@ fn gen_two_state(rng: &mut Rng, lalr: bool) -> (Grammar, Vec<Vec<&'static str>>)
     (g, vec![skip0, skip1])
 }
 
+/// Nested-comment template: the skipped tokens themselves switch scanner states. INITIAL skips
+/// the comment start (which pushes COMMENT); COMMENT skips start (push), end (pop) and body.
+fn gen_nested_comment(lalr: bool) -> (Grammar, Vec<Vec<&'static str>>) {
+    let mut g = Grammar::new("S", if lalr { GType::LALR } else { GType::LL });
+    g.states.push(ScannerState::new("COMMENT"));
+    let mk = |text: &str, states: Vec<usize>| TermDef { text: text.into(), quote: Quote::Raw, la: None, samples: vec![text.into()], states };
+    // 0 a, 1 b, 2 (*, 3 *), 4 c
+    g.terms = vec![mk("a", vec![0]), mk("b", vec![0]), mk("(*", vec![0, 1]), mk("*)", vec![1]), mk("c", vec![1])];
+    let t = |i: usize| Factor::T(i, AstCtl::default());
+    let n = |s: &str| Factor::N(s.into(), AstCtl::default());
+    g.rules.push(Rule { name: "S".into(), alts: vec![vec![Factor::Rep(vec![vec![n("Item")]])]] });
+    g.rules.push(Rule { name: "Item".into(), alts: vec![vec![t(0)], vec![t(1), t(0)]] });
+    g.rules.push(Rule { name: "CStart".into(), alts: vec![vec![t(2)]] });
+    g.rules.push(Rule { name: "CEnd".into(), alts: vec![vec![t(3)]] });
+    g.rules.push(Rule { name: "CBody".into(), alts: vec![vec![t(4)]] });
+    g.states[0].on.push((vec!["CStart".into()], Trans::Push("COMMENT".into())));
+    g.states[1].on.push((vec!["CStart".into()], Trans::Push("COMMENT".into())));
+    g.states[1].on.push((vec!["CEnd".into()], Trans::Pop));
+    g.states[0].skip.push("CStart".into());
+    for s in ["CStart", "CEnd", "CBody"] {
+        g.states[1].skip.push(s.into());
+    }
+    let skip0 = vec!["(*c*)", "(* c (* c *) c *)", " ", "(**)", "\n", "(*(**)*)", "(* c c *)"];
+    (g, vec![skip0, vec![]])
+}
+
 pub fn run(ctx: &Ctx) -> i32 {
     let t0 = Instant::now();
     let mut profs = wl::ll_profiles();
@@ -77,10 +103,14 @@ pub fn run(ctx: &Ctx) -> i32 {
         let p = &profiles[(i as usize) % profiles.len()];
         let lalr = p.gtype == GType::LALR;
         // three families: (a) generated grammar + comments, (b) + %skip Noise, (c) two-state template
-        let family = i % 3;
+        let family = if i % 6 == 5 { 3 } else { i % 3 };
         let (g, state_skips): (Grammar, Option<Vec<Vec<&'static str>>>) = match family {
             2 => {
                 let (g, s) = gen_two_state(rng, lalr);
+                (g, Some(s))
+            }
+            3 => {
+                let (g, s) = gen_nested_comment(lalr);
                 (g, Some(s))
             }
             _ => {
@@ -98,6 +128,15 @@ pub fn run(ctx: &Ctx) -> i32 {
             }
         };
         let noise_term = g.terms.iter().position(|t| t.text == "~");
+        // template families: the intended significant tokens come from the reference tokenizer
+        // (own matcher, state-specific skip lists), not from the scanner under test
+        let ref_modes = if family >= 2 {
+            let res: Vec<crate::scan::Re> = g.terms.iter().map(|t| crate::scan::Re::lit(&t.text)).collect();
+            let nterm = res.len();
+            Some(crate::wlscan::modes_of(&crate::wlscan::ScanCase { g: g.clone(), res, la_res: vec![None; nterm] }))
+        } else {
+            None
+        };
         let k = draw_k(rng, &g);
         let c = match prepare_grammar(g, p.name, k, &GenCfg::default()) {
             Prep::Ready(c) => c,
@@ -178,16 +217,18 @@ pub fn run(ctx: &Ctx) -> i32 {
                                 for _ in 0..nsk {
                                     s.push_str(*rng.pick(&skips[st]));
                                 }
-                                if r == 0 && st == 0 {
+                                if (r == 0 || family == 3) && st == 0 {
                                     s.push(' ');
                                 }
                             }
                             if *t < c.g.terms.len() {
                                 s.push_str(&c.g.terms[*t].samples[0]);
-                                if *t == 1 {
-                                    st = 1;
-                                } else if *t == 2 {
-                                    st = 0;
+                                if family == 2 {
+                                    if *t == 1 {
+                                        st = 1;
+                                    } else if *t == 2 {
+                                        st = 0;
+                                    }
                                 }
                             } else {
                                 s.push('#');
@@ -210,6 +251,27 @@ pub fn run(ctx: &Ctx) -> i32 {
                 // changed more than skip material (C13's subject)
                 let sig: Vec<usize> = scanned.iter().filter(|(t, _)| !t.effective_skip).map(|(t, _)| c.term_of_index.get(t.ty as usize).cloned().flatten().unwrap_or(999)).collect();
                 let want: Vec<usize> = w.iter().map(|t| if *t < c.g.terms.len() { c.g.canon_term(*t) } else { 999 }).collect();
+                if let Some(modes) = &ref_modes {
+                    let chars: Vec<char> = text.chars().collect();
+                    let rt = crate::scan::reference_scan(modes, &chars);
+                    let sig_ref: Vec<usize> = rt
+                        .iter()
+                        .filter_map(|t| match t.kind {
+                            crate::scan::Kind::Term(x) if !t.state_skip => Some(x),
+                            crate::scan::Kind::Error | crate::scan::Kind::Gap => Some(999),
+                            _ => None,
+                        })
+                        .collect();
+                    if sig_ref != sig {
+                        rep.eval();
+                        rep.violation(
+                            json!({"kind": "skip-list-applied-in-the-wrong-state", "family": family}),
+                            format!("the significant tokens the scanner delivers {sig:?} differ from those of the reference tokenizer {sig_ref:?}: a token of a state's skip list reached the parser or a significant token was skipped"),
+                            json!({"case": case_json(&c), "input": text}),
+                        );
+                        continue;
+                    }
+                }
                 if sig != want {
                     rep.inconclusive("rendering changed the significant tokens");
                     continue;
